@@ -447,7 +447,17 @@ func (ch c13) runCase(c *core.Ctx, env *hs.Env, k c13case, rng *core.Rng, idx in
 // messages interleaved with Flush/Sync, then the terminator, lock-step.
 func (ch c13) runRows(c *core.Ctx, env *hs.Env, rng *core.Rng, idx int) {
 	t := c14gen(rng, true)
+	if rng.Intn(3) == 0 {
+		// no file header: the stream starts with the first row (tiny streams included: one row of one NULL
+		// is 6 bytes, shorter than the signature a reader looks for)
+		t.NoHeader = true
+		c.Count("row_reader_streams_without_header", 1)
+	}
 	stream, _ := t.encode()
+	if len(stream) == 0 {
+		t.NoHeader = false
+		stream, _ = t.encode()
+	}
 	term := core.Pick(rng, []string{"done", "fail", "fail", "query", "parse", "unknown"})
 	handler := core.Pick(rng, []string{"propagate", "propagate", "swallow"})
 	exec := rng.Intn(3) == 0
@@ -555,11 +565,19 @@ func (ch c13) runRows(c *core.Ctx, env *hs.Env, rng *core.Rng, idx int) {
 			got = append(got, e.Data.(hs.CopyRec))
 		}
 	}
-	if len(got) != len(t.Rows)+1 {
-		viol("rows", "row reader observations differ from the rows sent", fmt.Sprintf("%d observations for %d rows + end", len(got), len(t.Rows)))
+	rows := t.Rows
+	if t.NoHeader && term != "done" && len(stream) < 19 && len(got) >= 1 && len(got) <= len(rows) {
+		// a stream without header, shorter than a header, that is aborted: a reader still looking for the
+		// optional header when the abort arrives may report the abort before the rows (the property asks
+		// for the error, not for the rows of an aborted COPY)
+		rows = rows[:len(got)-1]
+		c.Count("aborted_while_looking_for_the_header", 1)
+	}
+	if len(got) != len(rows)+1 {
+		viol("rows", "row reader observations differ from the rows sent", fmt.Sprintf("%d observations for %d rows + end", len(got), len(rows)))
 		return
 	}
-	for i, w := range t.Rows {
+	for i, w := range rows {
 		if !got[i].ErrNil {
 			viol("rows", "row reader failed on a well-formed row", got[i].Err)
 			return
